@@ -17,7 +17,7 @@ NewSess == [db |-> 0, proto |-> 2, name |-> <<>>, multi |-> "off", queue |-> <<>
             watch |-> {}, cas |-> FALSE]
 
 EmptyDbs == [i \in DbIds |-> EmptyDb]
-InitServer(conns) == [dbs |-> EmptyDbs, now |-> 1000, conn |-> [c \in conns |-> NewSess]]
+InitServer(conns) == [dbs |-> EmptyDbs, now |-> 1000000, conn |-> [c \in conns |-> NewSess]]
 
 \* result of Apply: successor state, reply, deviations used, deadline comparison hints
 SRes(S, r, dv, rel, tol) == [S |-> S, r |-> r, dv |-> dv, rel |-> rel, tol |-> tol]
